@@ -4,6 +4,7 @@ go 1.25
 
 require (
 	github.com/golang-jwt/jwt/v4 v4.0.0
+	github.com/google/uuid v1.3.0
 	github.com/nats-io/nats.go v1.31.0
 	github.com/simpleiot/simpleiot v0.0.0
 )
@@ -26,7 +27,6 @@ require (
 	github.com/goccy/go-yaml v1.11.2 // indirect
 	github.com/godbus/dbus/v5 v5.1.0 // indirect
 	github.com/golang/protobuf v1.5.2 // indirect
-	github.com/google/uuid v1.3.0 // indirect
 	github.com/gorilla/websocket v1.4.1 // indirect
 	github.com/influxdata/influxdb-client-go/v2 v2.10.0 // indirect
 	github.com/influxdata/line-protocol v0.0.0-20210311194329-9aa0e372d097 // indirect
@@ -64,3 +64,5 @@ require (
 replace github.com/simpleiot/simpleiot => /repo
 
 replace github.com/nats-io/nats.go => ../simnats
+
+godebug randseednop=0
